@@ -9,6 +9,8 @@ Python-level loop / one call of a recursive parser function.
 import TonVerif.Proofs.Cost
 import TonVerif.Proofs.CostTl
 import TonVerif.Generated.TlCostTable
+import TonVerif.Proofs.SrcTl
+import TonVerif.Generated.TlFraming
 
 namespace TonVerif.Properties.C19
 open TonVerif TonVerif.Model TonVerif.Model.Cost TonVerif.Proofs.Cost
@@ -236,5 +238,50 @@ def tlTable : Tl.Table := [⟨[1, 2, 3, 4], [⟨none, .vec none⟩]⟩]
 example : IdsNonempty tlTable := by intro s hs; simp [tlTable] at hs; subst hs; simp
 example : Tl.Ids4 tlTable ∧ Tl.NoBareCycle tlTable 0 := by decide
 example : Tl.deser tlTable 3 [1, 2, 3, 4, 0, 0, 64, 0] none = .raised 2 true := by decide
+
+/-! ## Source-regenerated TL framing and vector guard (`Generated/TlFraming.lean`: re-translated from tl/generator.py on every run;
+the same definitions serve C14) -/
+section Src
+open TonVerif.Proofs.SrcArith2 TonVerif.Proofs.SrcTl
+set_option linter.unusedSimpArgs false
+
+/-- the model's slices and little-endian reader are the translator's readings of `data[a:b]` and `int.from_bytes(.., 'little')`. -/
+theorem c19_src_tl_primitives (bs : Bytes) (a b : Nat) :
+    sl bs a b = Py.slice bs a b ∧ Tl.natOfLE bs = Py.fromBytes false bs := by
+  simp [sl, Py.slice, Tl.natOfLE, Py.fromBytes]
+
+/-- the vector step of the cost model (what `c19_tl_vector_guard`, `c19_tl_total` are proved about) raises by exactly the
+regenerated guard of fix 110bf4a — `length > len(data) - i` over Python ints, evaluated after `i += 4`: it fires for EVERY declared
+length that exceeds the bytes remaining behind the 4-byte count, also when the count itself was read past the end. -/
+theorem c19_src_tl_vector_guard (rec : Bytes → Option Nat → Tl.Res) (data : Bytes) (i : Nat) (elem : Option Nat) :
+    Generated.tlVecTooLong_sideOk (Tl.natOfLE (sl data i (i + 4))) data.length ((i : Int) + 4) ∧
+    Tl.fieldStep rec data i (.vec elem) =
+      (if Generated.tlVecTooLong (Tl.natOfLE (sl data i (i + 4))) data.length ((i : Int) + 4) then .raised 0 true
+       else Tl.vecLoop (fun b => rec b elem) data (Tl.natOfLE (sl data i (i + 4))) (i + 4) 0) := by
+  refine ⟨by simp only [Generated.tlVecTooLong_sideOk] <;> src_prop, ?_⟩
+  have hg : ∀ n : Nat, Generated.tlVecTooLong n data.length ((i : Int) + 4) = decide (data.length < i + 4 + n) := by
+    intro n; simp only [Generated.tlVecTooLong, decide_eq_decide] <;> omega
+  simp only [Tl.fieldStep, hg, decide_eq_true_eq]
+
+/-- the bytes step of the cost model (no re-parse) ends at exactly the offset the regenerated header and skip arithmetic compute:
+long/short form by the `FE` byte, 3-byte / 1-byte little-endian length, 4-byte alignment counted from the header. -/
+theorem c19_src_tl_bytes_skip (rec : Bytes → Option Nat → Tl.Res) (data : Bytes) (i : Nat) :
+    Tl.fieldStep rec data i (.bytes false) =
+      .ok (Generated.tlSkip (Generated.tlHdrNext data i) (Generated.tlHdrLen data i) (Generated.tlHdrAttach data i)) 0 := by
+  have hs := fun a b => (c19_src_tl_primitives data a b).1
+  have hn := fun bs => (c19_src_tl_primitives bs 0 0).2
+  simp only [Tl.fieldStep, hs, hn, Generated.tlSkip, Generated.tlHdrNext, Generated.tlHdrLen, Generated.tlHdrAttach,
+    Bool.not_false, if_true, beq_iff_eq, bne_iff_ne, ne_eq]
+  by_cases h : Py.slice data i (i + 1) = [254]
+  · simp only [h, if_true] <;> src_close
+  · simp only [h, if_false] <;> src_close
+
+/-- concrete: a declared vector length of 2^22 over 4 bytes of input fires the guard; the bytes field `05 h e l l o 00 00` at
+offset 0 ends at 8. -/
+example : Generated.tlVecTooLong (2 ^ 22) 4 4 = true ∧ Generated.tlVecTooLong 0 4 4 = false ∧
+    Generated.tlSkip (Generated.tlHdrNext [5, 104, 101, 108, 108, 111, 0, 0] 0) (Generated.tlHdrLen [5, 104, 101, 108, 108, 111, 0, 0] 0)
+      (Generated.tlHdrAttach [5, 104, 101, 108, 108, 111, 0, 0] 0) = 8 := by decide
+
+end Src
 
 end TonVerif.Properties.C19
